@@ -242,6 +242,26 @@ class Prop(BaseProp):
                     continue
                 yield (Verdict('ok', case, nontrivial=True, tags=['loading']) if ok else
                        Verdict('spec', case, 'the Licensing built from a location is not the one the file there describes'))
+            # the same through locations relative to the current directory (a bare file name, ./name, a sub-directory), also a file
+            # in the current directory that is named like the bundled one
+            cwd = os.getcwd()
+            try:
+                os.chdir(d)
+                os.makedirs('indexes', exist_ok=True)
+                for rel in ('my-index.json', './my-index.json', os.path.join('indexes', 'index.json'), 'scancode-licensedb-index.json'):
+                    with open(rel, 'w') as f:
+                        json.dump(a, f)
+                    case = {'index': 'synthetic', 'step': 'relative location ' + rel, 'records': a}
+                    try:
+                        ok = (le.get_license_index(rel) == a and table_of(le.get_spdx_licensing(rel)) == table_of(le.build_spdx_licensing(a))
+                              and table_of(le.get_scancode_licensing(rel)) == table_of(le.build_licensing(a)))
+                    except BaseException as e:  # noqa
+                        yield Verdict('spec', case, 'loading from a relative location raised ' + type(e).__name__)
+                        continue
+                    yield (Verdict('ok', case, nontrivial=True, tags=['loading']) if ok else
+                           Verdict('spec', case, 'the Licensing built from a relative location is not the one the file there describes'))
+            finally:
+                os.chdir(cwd)
         yield ready('after loading other locations')
 
     def run(self, drv, rng, tier, index, nworkers, scale):
